@@ -94,6 +94,7 @@ namespace pika::detail {
             // waiting
             if (!cond_.notify_one(std::move(l))) break;
 
+            PIKA_VERIF_POINT(42, this);
             l = std::unique_lock<mutex_type>(*mtx);
         }
     }
